@@ -645,16 +645,18 @@ Inductive outcome :=
 | OOk (offered : list (str * str))                       (* (path, method key) of list(schema.get_all_operations()) *)
       (stat : nat * nat * nat * nat)                     (* operations total, selected, links total, selected *)
       (iterated : nat)                                   (* len(list(schema._operation_iter())) *)
-      (transitions : option (list (str * str * str * str)))
-      (maps : list (str * list str * list str)).         (* path, list(schema[path]), methods the coverage phase adds *)
+      (transitions : option (list (str * str * str * str))).
 
 Definition observe (fs : filter_set) (d : doc) : outcome :=
   let st := measure_statistic fs d in
   OOk (map (fun o => (o_path o, o_method o)) (get_all_operations fs d))
       (st_ops_total st, st_ops_selected st, st_links_total st, st_links_selected st)
       (length (operation_iter fs d))
-      (option_map (map (fun t => (t_source t, t_status t, t_name t, t_target t))) (collect_transitions fs d))
-      (map (fun pi : str * path_item => (fst pi, method_map_keys fs (snd pi), unspecified_methods fs (snd pi))) d).
+      (option_map (map (fun t => (t_source t, t_status t, t_name t, t_target t))) (collect_transitions fs d)).
+(* per path: list(schema[path]) and the methods the coverage phase adds as unspecified - for ANY filter set
+   (C07_method_map_ignores_filters), so the harness evaluates it once per document *)
+Definition doc_maps (fs : filter_set) (d : doc) : list (str * list str * list str) :=
+  map (fun pi : str * path_item => (fst pi, method_map_keys fs (snd pi), unspecified_methods fs (snd pi))) d.
 Definition run_case (d : doc) (cs : list call) : outcome :=
   match apply_calls cs fs_empty 0 with
   | inl fs => observe fs d
